@@ -33,6 +33,7 @@ type thread struct {
 	waitRW *RWMutex
 	rwKind int // 1 = wants write lock, 2 = wants read lock
 	waitOn *Once
+	cond   func() bool // WaitUntil: harness-level blocking condition (must be a //go:norace function)
 }
 
 var (
@@ -44,6 +45,14 @@ var (
 	// OrderHook receives the canonically sorted keys of an iteration and returns the order
 	// (a permutation of 0..len-1) in which they are visited. nil ⇒ sorted order.
 	OrderHook func(keys []string) []int
+
+	// Script / Rec: scheduler-internal replay and recording (used instead of Chooser under -race,
+	// where harness code must not run on arbitrary goroutines between scheduling points).
+	Script []int
+	Rec    []SchedPoint
+	// KeyRank fixes the iteration order without a hook: keys are visited by ascending rank, then
+	// by name (read-only during an execution).
+	KeyRank map[string]int
 
 	threads []*thread
 	alive   int // threads that have not finished
@@ -78,6 +87,7 @@ func Begin() {
 		t.h.close()
 	}
 	threads, alive = nil, 0
+	Rec = nil
 	Deadlock, ChildPanics, Points, Spawned, Unfinished = false, nil, 0, 0, 0
 	cur = newThread()
 	Active = true
@@ -142,7 +152,25 @@ func enabled(t *thread) bool {
 	if t.waitOn != nil && t.waitOn.running {
 		return false
 	}
+	if t.cond != nil && !t.cond() {
+		return false
+	}
 	return true
+}
+
+// WaitUntil blocks the calling goroutine (in the model) until cond holds. cond is evaluated by
+// the scheduler on whatever goroutine is running: it must be a //go:norace function over state
+// that only norace code touches.
+//
+//go:norace
+func WaitUntil(cond func() bool) {
+	if !Active {
+		return
+	}
+	self := cur
+	self.cond = cond
+	schedule(self)
+	self.cond = nil
 }
 
 //go:norace
@@ -194,6 +222,14 @@ func schedule(self *thread) {
 		if c < 0 || c >= len(en) {
 			panic(fmt.Sprintf("vsync: chooser returned %d of %d", c, len(en)))
 		}
+	} else if len(en) > 1 {
+		if i := len(Rec); i < len(Script) {
+			c = Script[i]
+			if c < 0 || c >= len(en) {
+				panic(ReplayDivergence{fmt.Sprintf("scheduling point %d: scripted choice %d of %d enabled", i, c, len(en))})
+			}
+		}
+		Rec = append(Rec, SchedPoint{len(en), c, selfEn})
 	}
 	next := en[c]
 	if next == self {
@@ -208,6 +244,16 @@ func schedule(self *thread) {
 		}
 	}
 }
+
+// SchedPoint is one recorded scheduling decision.
+type SchedPoint struct {
+	N       int
+	Chosen  int
+	Preempt bool // the running goroutine was still enabled (choosing another one is a preemption)
+}
+
+// ReplayDivergence is raised when Script does not fit the execution.
+type ReplayDivergence struct{ Msg string }
 
 // DeadlockPanic is raised on the main goroutine when no goroutine can run.
 type DeadlockPanic struct{}
@@ -463,6 +509,20 @@ func order(n int, key func(int) string) []int {
 	idx := make([]int, n)
 	for i := range idx {
 		idx[i] = i
+	}
+	if KeyRank != nil && n >= 2 {
+		sort.SliceStable(idx, func(a, b int) bool {
+			ra, oka := KeyRank[key(idx[a])]
+			rb, okb := KeyRank[key(idx[b])]
+			if !oka {
+				ra = 1 << 30
+			}
+			if !okb {
+				rb = 1 << 30
+			}
+			return ra < rb
+		})
+		return idx
 	}
 	if OrderHook == nil || n < 2 {
 		return idx
